@@ -449,6 +449,37 @@ func ruleC04SizeMirror(r *Run, p *Program, rule string) {
 			if !bad {
 				r.ok(rule, construct, pos, "file.size of the same file is assigned on every success path after File."+m, true)
 			}
+			// ... and only there: when the call failed the tracked size must not move
+			wf := &Walk{Fn: f, SkipEdge: func(b *ssa.BasicBlock, k int) bool {
+				cd := edgeCond(b, k)
+				if cd == nil {
+					return false
+				}
+				e := errNilEdge(cd)
+				return e != nil && valueOfCall(e, c)
+			}}
+			wf.From(c)
+			movedOnFailure := false
+			errTested := false
+			for _, bb := range f.Blocks {
+				for k := range bb.Succs {
+					if cd := edgeCond(bb, k); cd != nil {
+						if e := errNilEdge(cd); e != nil && valueOfCall(e, c) {
+							errTested = true
+						}
+					}
+				}
+			}
+			instrsOf(f, func(x ssa.Instruction) {
+				st, ok := x.(*ssa.Store)
+				if !ok || fieldName(st.Addr) != "pogreb.file.size" || !wf.Visited[st] {
+					return
+				}
+				if errTested {
+					movedOnFailure = true
+				}
+			})
+			r.check(!movedOnFailure, rule, construct+":size-only-on-success", pos, "file.size is not changed when File."+m+" failed", "file.size is advanced although File."+m+" returned an error (e.g. a short write): the torn bytes stay inside the segment, later records are appended behind them and the next recovery cuts everything after the torn record")
 		})
 	}
 	r.universe(rule, n, 4)
